@@ -468,6 +468,44 @@ static int mode_bfs(int nkeys, const char *failpath) {
     return ok ? 0 : 1;
 }
 
+// deterministic: long monotone runs (the splay tree degenerates into a spine of that depth), operations at the far end,
+// and string keys that agree on their first 256+ characters
+static int mode_spine(const char *failpath) {
+    bool ok = true;
+    static const int sizes[] = {65, 129, 300, 1000};
+    for (int cmpi = 0; cmpi < 2 && ok; cmpi++) for (int si = 0; si < 4 && ok; si++) for (int dir = 0; dir < 2 && ok; dir++) {
+        int N = sizes[si];
+        if (cmpi == 1 && N > 300) continue;
+        Universe u; u.cmp = cmpi == 0 ? CMP_INT : CMP_CHARP;
+        for (int i = 0; i < N; i++) {
+            if (cmpi == 0) u.ints.push_back(i * 3 - 7);
+            else { char b[16]; snprintf(b, sizeof b, "%04d", i); u.strs.push_back(std::string(270, i % 2 ? 'q' : 'Q') + b); }   // differ only beyond 270 characters
+        }
+        if (cmpi == 1) { std::vector<long long> rk; for (size_t i = 0; i < u.strs.size(); i++) rk.push_back(rank_of(u, (int)i)); u.ranks = rk; }
+        std::vector<Op> ops;
+        auto K = [&](int i) { return dir ? N - 1 - i : i; };
+        for (int i = 0; i < N; i++) ops.push_back({0, K(i), 0});
+        int far = K(0), near = K(N - 1);
+        ops.push_back({2, far, 0}); ops.push_back({3, far, 0});
+        for (int i = 0; i < N; i++) ops.push_back({2, K(N - 1 - i), 0});       // sweep back: spine in the other direction
+        ops.push_back({0, near, 0});                                            // equal key at the (now) far end: must replace
+        ops.push_back({1, near, 0}); ops.push_back({0, near, 0});
+        for (int i = 0; i < N; i++) ops.push_back({2, K(i), 0});
+        ops.push_back({1, far, 1}); ops.push_back({6, far, 0});
+        for (int i = 0; i < N; i += 3) ops.push_back({1, K(i), 0});
+        for (int i = 0; i < N; i += 7) ops.push_back({3, K(i), 0});
+        ops.push_back({4, 0, 0});
+        bool res = run_ops(u, ops, true);
+        C.nontrivial++;
+        if (!res) {
+            ok = false;
+            if (failpath) { std::ofstream f(failpath); f << g_last_fail_text << "# " << g_last_fail_msg << "\n"; }
+        }
+    }
+    print_json("spine", ok, 0, "");
+    return ok ? 0 : 1;
+}
+
 static int mode_replay(const char *path) {
     std::ifstream f(path);
     std::string line, cmpname;
@@ -495,6 +533,7 @@ static int mode_replay(const char *path) {
 int main(int argc, char **argv) {
     if (argc >= 2 && !strcmp(argv[1], "rc")) return mode_rc(argc > 2 ? atoi(argv[2]) : 100, argc > 3 ? atoi(argv[3]) : 100, argc > 4 ? argv[4] : NULL);
     if (argc >= 3 && !strcmp(argv[1], "bfs")) return mode_bfs(atoi(argv[2]), argc > 3 ? argv[3] : NULL);
+    if (argc >= 2 && !strcmp(argv[1], "spine")) return mode_spine(argc > 2 ? argv[2] : NULL);
     if (argc >= 3 && !strcmp(argv[1], "replay")) return mode_replay(argv[2]);
     fprintf(stderr, "usage: set_h rc|bfs|replay ...\n");
     return 2;
